@@ -85,16 +85,25 @@ pub fn run_case(ctx: &mut Ctx, fam: &str, k: u64, r: &mut Rng) {
     } else if fam == "large" {
         fr = r.range(1, 5);
         fc = r.range(1, 5);
-        h = fr + r.below(12);
-        w = fc + r.below(12);
-        sr = r.range(1, 4);
-        sc = r.range(1, 4);
-        d = r.range(1, 4);
-        cnt = r.range(1, 5);
-        batch = match r.below(5) {
+        // mostly up to 16x16; one case in four is much wider than tall (or the reverse), up to 40 pixels
+        let (eh, ew) = match r.below(8) {
+            0 => (r.below(3), r.range(12, 36)),
+            1 => (r.range(12, 36), r.below(3)),
+            _ => (r.below(12), r.below(12)),
+        };
+        h = fr + eh;
+        w = fc + ew;
+        // strides up to 6: larger than any filter side now and then
+        sr = if r.chance(1, 5) { r.range(4, 6) } else { r.range(1, 4) };
+        sc = if r.chance(1, 5) { r.range(4, 6) } else { r.range(1, 4) };
+        d = r.range(1, 5);
+        cnt = r.range(1, 6);
+        batch = match r.below(7) {
             0 => vec![],
             1 => vec![1],
             2 | 3 => vec![r.range(2, 4)],
+            4 => vec![r.range(5, 7)],
+            5 => vec![3, 2],
             _ => vec![2, 2],
         };
     } else {
